@@ -5,6 +5,8 @@
 
 #include <micm/solver/temporary_variables.hpp>
 
+#include <memory>
+
 namespace micm
 {
   template<class DenseMatrixPolicy>
@@ -20,6 +22,11 @@ namespace micm
     BackwardEulerTemporaryVariables& operator=(const BackwardEulerTemporaryVariables& other) = default;
     BackwardEulerTemporaryVariables& operator=(BackwardEulerTemporaryVariables&& other) = default;
     ~BackwardEulerTemporaryVariables() = default;
+
+    std::unique_ptr<TemporaryVariables> Clone() const override
+    {
+      return std::make_unique<BackwardEulerTemporaryVariables>(*this);
+    }
 
     BackwardEulerTemporaryVariables(const auto& state_parameters)
         : Yn_(state_parameters.number_of_grid_cells_, state_parameters.number_of_species_),
